@@ -14,12 +14,12 @@ SHARDS = {"quick": 16, "thorough": 16}
 META = {
     "level": "exploration",
     "technique": "runtime monitoring in virtual time: the callbacks record (virtual time, name, arguments); an acceptor derived from the server's frame log (arrival time of each frame's last byte) predicts the exact callback sequence and times; zero processing time makes any wait for further traffic or a select timeout visible as a positive delay",
-    "claim": "For all server traffic histories up to length 3 (quick, plus sampled length 4) / 4 (thorough) over text, binary, 2- and 3-fragment messages, ping and pong, delivered one segment per frame, as one burst in a single segment followed by 50 s of silence, and byte-wise, over plain (Dispatcher) and TLS (SSLDispatcher, burst = one TLS record) transports, with sampled (quick) / all (thorough, per history class) subsets of callbacks set and each callback raising in turn: on_open fired once and first, every message reached on_data (with its type) and on_message exactly once in order with str/bytes, every ping/pong reached on_ping/on_pong with its payload, each at the virtual time its last byte arrived, and a raising callback was reported to on_error without stopping later events.",
+    "claim": "For all server traffic histories up to length 3 (quick, plus sampled length 4) / 5 (thorough) over text, binary, 2- and 3-fragment messages, ping and pong, delivered one segment per frame, as one burst in a single segment followed by 50 s of silence, and byte-wise, over plain (Dispatcher) and TLS (SSLDispatcher, burst = one TLS record) transports, with sampled (quick) / all (thorough, per history class) subsets of callbacks set and each callback raising in turn: on_open fired once and first, every message reached on_data (with its type) and on_message exactly once in order with str/bytes, every ping/pong reached on_ping/on_pong with its payload, each at the virtual time its last byte arrived, and a raising callback was reported to on_error without stopping later events.",
     "trusted": "virtual clock; simulated TLS socket models record buffering (pending() data invisible to the selector); acceptor in this file",
     "rule": "case = (history, segmentation, transport, callback subset, raising callback); distinct by that tuple; non-trivial when the history has >= 2 events or is delivered as a burst/byte-wise",
     "exhaustive": {"quick": False, "thorough": False},
     "exhaustive_space": {"quick": "all histories of length <= 3 over 6 event kinds x 3 segmentations x 2 transports (callback subsets sampled)",
-                         "thorough": "all histories of length <= 4 x 3 segmentations x 2 transports; all 2^7 callback subsets on a fixed rich history"},
+                         "thorough": "all histories of length <= 5 x 3 segmentations x 2 transports; all 2^7 callback subsets on a fixed rich history"},
     "bounds": "on_cont_message mode: only names and payloads are judged (flags undocumented)",
     "required_counters": ["callbacks_checked", "timing_checked", "tls_runs", "burst_runs"],
     "assumptions": [],
@@ -112,7 +112,7 @@ def run(res, tier, seed, shard, nshards):
     H.scrub_env()
     rng = random.Random((seed << 8) ^ shard ^ 0xC13)
     quick = tier == "quick"
-    hists = [h for n in range(1, (3 if quick else 4) + 1) for h in itertools.product(KINDS, repeat=n)]
+    hists = [h for n in range(1, (3 if quick else 5) + 1) for h in itertools.product(KINDS, repeat=n)]
     if quick:
         hists += [tuple(rng.choice(KINDS) for _ in range(4)) for _ in range(200)]
     hists += [tuple(random.Random(i).choice(KINDS) for _ in range(random.Random(i).randrange(5, 10))) for i in range(40 if quick else 400)]
